@@ -101,8 +101,8 @@ func verifWFList(pj *ParsedJson, lo, hi int, obj bool, strictNop bool) bool {
 }
 
 // verifWFTape checks the whole tape: a sequence of root pairs, each holding exactly one live
-// top-level value (object/array, or null after SetNull on it is NOT accepted here).
-func verifWFTape(pj *ParsedJson, strictNop bool) bool {
+// top-level value: an object or array as Parse produces, or (topAny) any value, as after SetNull on it.
+func verifWFTape(pj *ParsedJson, strictNop bool, topAny bool) bool {
 	t := pj.Tape
 	n := len(t)
 	o := 0
@@ -134,11 +134,21 @@ func verifWFTape(pj *ParsedJson, strictNop bool) bool {
 				p += k
 				continue
 			}
-			if tag != '{' && tag != '[' {
-				return false
-			}
 			live++
-			p = int(t[p] & JSONVALUEMASK)
+			switch tag {
+			case '{', '[':
+				p = int(t[p] & JSONVALUEMASK)
+			case 'n', 't', 'f':
+				if !topAny {
+					return false
+				}
+				p++
+			default:
+				if !topAny {
+					return false
+				}
+				p += 2
+			}
 		}
 		if live != 1 {
 			return false
